@@ -4,13 +4,17 @@ from vlib.skyb import ap_crc32, make_file, hx, rand_bytes
 from vlib.skyb import _TAB, _TOP
 
 PID = "C05"
-LEAN_MODULE = "Sb.Properties.C05"
+LEAN_MODULE = "Sb.Properties.C05Period"
 THEOREMS = [
     "Sb.C05.crc_field_position", "Sb.C05.chunk_covers_header", "Sb.C05.update_expr_shape", "Sb.C05.poly_is_reflected",
     "Sb.C05.table_correct", "Sb.C05.update_eq_bitserial", "Sb.C05.update_split", "Sb.C05.update_splits",
     "Sb.C05.chunked_eq_whole", "Sb.C05.accept_rule", "Sb.C05.le32_injective", "Sb.C05.detect_in_field",
     "Sb.C05.crc_of_corrupted",
             "Sb.C05.detect_window_after_field", "Sb.C05.detect_byte_after_field", "Sb.C05.detect_two_bits_after_field", "Sb.C05.detect_field_bit_and_data_bit", "Sb.C05.generator_order",
+            "Sb.C05.fileCrc_two_bits", "Sb.C05.detect_two_bits_up_to_period", "Sb.C05.detect_two_bits_gap", "Sb.C05.two_bits_one_period_apart_undetected",
+            "Sb.C05.fileCrc_one_bit", "Sb.C05.detect_field_bit_and_data_bit_up_to_period", "Sb.C05.field_bit_and_data_bit_one_period_apart_undetected",
+            "Sb.Proofs.crc_one_bit_ne_basis_period", "Sb.Proofs.crc_one_bit_eq_basis_at_period", "Sb.Proofs.fieldDistance_lt",
+            "Sb.Proofs.crc_two_bits_ne_period", "Sb.Proofs.crc_two_bits_at_period", "Sb.Proofs.bitDistance_lt", "Sb.Proofs.period_full",
             "Sb.Proofs.crc_window4", "Sb.Proofs.crc_window_changes", "Sb.Proofs.no_small_period", "Sb.Proofs.sqTab_step", "Sb.Proofs.app_matOf"]
 RULE = ("crcupd: all 256 single bytes from crc 0 (= all table entries) and from seeded crcs, seeded strings with every split point "
         "(short) / seeded split points (long, lengths around multiples of 256); facc: valid checksummed files of lengths "
